@@ -3,6 +3,7 @@ package pool
 import (
 	"errors"
 	"fmt"
+	"net"
 	"net/url"
 
 	"github.com/vipnode/vipnode/v2/internal/pretty"
@@ -40,7 +41,7 @@ func normalizeNodeURI(nodeURI, nodeID, defaultHost, defaultPort string) (string,
 	u := &url.URL{
 		Scheme: "enode",
 		User:   url.User(nodeID),
-		Host:   host + ":" + port,
+		Host:   net.JoinHostPort(host, port),
 	}
 	return u.String(), nil
 }
